@@ -71,4 +71,18 @@ CLAIMED = {
          "and validate_op args = ok is proved equivalent to the decidable precondition written from the property's list, for all shapes and arguments; rejected in-place requests are proved to return the input state. "
          "The harness violates each precondition separately across shapes chosen so the violation can broadcast or divide by accident, checks raise/no-raise against the precondition and the model, and compares the receiver bitwise",
          _NOTE + "; any exception counts as rejection; receiver-unchanged for non-in-place operations is checked on the implementation, not proved; 25 introspected methods are tagged uncovered in the evidence", "DESIGN.md 7 (C19)"),
+ "C02": ("Lean 4 refinement theorems 'kernel as the code composes it = sum over indices' by induction over the modes + exact differential correspondence of implementation, model and specification",
+         "every multilinear kernel of every representation is modelled as the composition of transpose / F-reshape / matmul / dot / gather / accumulate the code performs and compared exactly with the executable "
+         "sum-over-indices specification on every run. Proved for all shapes and orders: the mode-designation conventions (dims in any order, exclude_dims, one multiplicand per listed mode or per mode), dense and sparse "
+         "ttv (all five sparse result branches incl. the 50% densify switch), dense ttm (plain, transposed, list), Tucker full, dense and sparse mttkrp (all three dense branches, Kruskal operand with weights), inner "
+         "products and norms, dense and sparse collapse / scale / contract. Model + specification + exact correspondence only (no theorem yet): sparse ttm, the Kruskal / Tucker / sum kernels, ttt, mttkrps, and the "
+         "cross-representation family (same array held five ways gives the same answer)",
+         _NOTE + "; one by-design known finding: sparse collapse hands a reducer only the stored values (differs from dense for max/min/prod/len)", "DESIGN.md 7 (C02)"),
+ "C09": ("translator for the scalar formulas of cp_als.py (regenerated every run) + Lean model of the ALS sweep with solve as a service + theorems over any ordered field with lawful sqrt; one-step trace validation of the real cp_als at Float",
+         "proved for all inputs: shape and rank of the result, normal form after the final arrange (columns of 2-norm one or entirely zero with weight zero, weights non-negative and descending), the Kruskal norm "
+         "identity, iteration count and stop rule, the returned initial guess, option rejection; relative to the data laws of C02 (inner product and MTTKRP laws): the saved-MTTKRP inner product, residual and fit "
+         "formulas incl. the sum-tensor branch for the returned model; relative to the solve contract: normal equations and least-squares optimality of each mode update. Fit monotonicity is proved at matrix level "
+         "(_partial: the bridge from the list kernels to matrices is listed as missing). Every run replays recorded cp_als traces (dense, sparse, Tucker, sum data; all mode orders and optdims subsets for N<=3; "
+         "given / random / nvecs starts) through the Lean step and recomputes the reported quantities independently",
+         _NOTE + "; np.linalg.solve enters as a service whose contract is checked on every recorded call; Float steps are compared at 1e-9 relative; reported residuals are compared on the scale of the cancelled terms", "DESIGN.md 7 (C09)"),
 }
